@@ -182,8 +182,10 @@ Definition nan_bad1 (n step : nat) (lv : nat) (m : st) : bool :=
 Lemma nan_body2 c fuel n step i s evs :
   gen_NoActiveNonrootDemes_forv2 c fuel n step i s evs = Some ((if nan_bad2 n step i (ms s) then Some false else None), s, evs).
 Proof.
-  unfold gen_NoActiveNonrootDemes_forv2, nan_bad2. dunf. destruct (d_active (dnth i (demes (ms s)))); cbn [orb]; [reflexivity|].
-  destruct (step <=? _); reflexivity.
+  (* whichever way the disjunction and the sum are written in the source *)
+  unfold gen_NoActiveNonrootDemes_forv2, nan_bad2. dunf.
+  repeat match goal with |- context [Nat.leb ?a ?b] => destruct (Nat.leb_spec a b) end;
+    destruct (d_active (dnth i (demes (ms s)))); cbn [orb andb negb]; try reflexivity; exfalso; lia.
 Qed.
 Lemma nan_body1 c fuel n step lv s evs :
   gen_NoActiveNonrootDemes_forv1 c fuel n step lv s evs = Some ((if nan_bad1 n step lv (ms s) then Some false else None), s, evs).
